@@ -490,6 +490,12 @@ def rule_bounds(repo, rep):
       canon('sklearn.metrics.pairwise_distances') and len(src.args) == 1 \
       and not src.keywords
   xdef = None
+  if ok_src and isinstance(src.args[0], ast.Subscript) and \
+          isinstance(src.args[0].slice, ast.Slice):
+    rep.refuted(R, key, site(f, st_[0]), 'the percentiles are taken over %s, '
+                'a part of the points only (documented: among all points '
+                'present in the pairs)' % ast.unparse(src.args[0]))
+    return
   if ok_src and isinstance(src.args[0], ast.Name):
     xd = [s_ for s_ in none_body if isinstance(s_, ast.Assign) and
           ast.unparse(s_.targets[0]) == src.args[0].id]
